@@ -113,7 +113,8 @@ pub struct ContigDef {
     pub extra: Vec<(String, String)>,
 }
 
-/// Any other `##key=...` line. Lines with the same key are adjacent and of the same kind.
+/// Any other `##key=...` line. Lines with the same key are of the same kind; they need not be adjacent
+/// and may repeat verbatim (noodles keeps one ordered collection per key).
 #[derive(Clone, Debug, PartialEq)]
 pub enum OtherLine {
     Unstructured { key: String, value: String },
@@ -577,23 +578,35 @@ pub fn diff_headers(exp: &HeaderDesc, got: &HeaderDesc) -> Vec<(String, String)>
             out.push(("contig.other-fields".into(), format!("{}: {:?} vs {:?}", x.id, x.extra, y.extra)));
         }
     });
-    let group = |v: &[OtherLine]| -> Vec<OtherLine> {
-        let mut keys: Vec<&str> = Vec::new();
+    // other lines: one ordered sequence per key (keys in order of first appearance)
+    let keys_of = |v: &[OtherLine]| -> Vec<String> {
+        let mut keys: Vec<String> = Vec::new();
         for l in v {
-            if !keys.contains(&l.key()) {
-                keys.push(l.key());
+            if !keys.iter().any(|k| k == l.key()) {
+                keys.push(l.key().to_string());
             }
         }
-        let mut g = Vec::new();
-        for k in keys {
-            g.extend(v.iter().filter(|l| l.key() == k).cloned());
-        }
-        g
+        keys
     };
-    let (oa, ob) = (group(&exp.others), group(&got.others));
-    if oa != ob {
-        let first = oa.iter().zip(&ob).position(|(a, b)| a != b).unwrap_or(oa.len().min(ob.len()));
-        out.push(("other-lines".into(), format!("{} vs {} lines; first difference at #{first}: {:?} vs {:?}", oa.len(), ob.len(), oa.get(first), ob.get(first))));
+    let (ka, kb) = (keys_of(&exp.others), keys_of(&got.others));
+    if ka != kb {
+        out.push(("other-lines.keys".into(), format!("{ka:?} vs {kb:?}")));
+    }
+    for k in &ka {
+        let sa: Vec<&OtherLine> = exp.others.iter().filter(|l| l.key() == k).collect();
+        let sb: Vec<&OtherLine> = got.others.iter().filter(|l| l.key() == k).collect();
+        if sb.is_empty() || sa == sb {
+            continue;
+        }
+        let kind = if matches!(sa[0], OtherLine::Unstructured { .. }) { "unstructured" } else { "structured" };
+        let mut dedup: Vec<&OtherLine> = Vec::new();
+        for l in &sa {
+            if !dedup.contains(l) {
+                dedup.push(l);
+            }
+        }
+        let class = if sa.len() != sb.len() { if dedup == sb { "repeated-line-lost" } else { "count" } } else { "content-or-order" };
+        out.push((format!("other-lines.{kind}.{class}"), format!("##{k}: {} vs {} lines: {sa:?} vs {sb:?}", sa.len(), sb.len())));
     }
     if exp.samples != got.samples {
         out.push(("samples".into(), format!("{:?} vs {:?}", exp.samples, got.samples)));
